@@ -4,22 +4,25 @@
  * coroutine suspends or finishes") binds this path too: whatever the starter had queued must still be queued when start() returns.
  * The resume primitive (lib/model_coro.c) lets the resumed child make others ready and pause / transfer symmetrically, which takes
  * entries from the head of the ready queue - exactly what the real child may do. */
-cv_i8 *gh_sp_h; int gh_sp_calls, gh_ir_calls;
+cv_i8 *gh_sp_h, *gh_ir_h; int gh_sp_calls, gh_ir_calls;
 #ifdef CV_HAS_as_start_promise_stub
 cv_i8 *as_start_promise_stub(void *a, void *p) { gh_sp_calls++; return gh_sp_h; }
 #endif
 #ifdef CV_HAS_cq_install_resume_stub
-void cq_install_resume_stub(cv_i8 *h) { gh_ir_calls++; }
+void cq_install_resume_stub(cv_i8 *h) { gh_ir_calls++; gh_ir_h = h; }
 #endif
 #ifdef CV_HAS_as_start_lambda
 void as_start_lambda(START_LAM *this_, PROM *promise)
-__CPROVER_requires(Q_PRE && QI != 0 && gh_sp_h != 0 && gh_sp_calls == 0 && gh_ir_calls == 0)
+__CPROVER_requires(Q_PRE && gh_sp_h != 0 && gh_sp_calls == 0 && gh_ir_calls == 0)
 __CPROVER_requires(__CPROVER_is_fresh(this_, sizeof(*this_)) && __CPROVER_is_fresh(promise, sizeof(*promise)))
-__CPROVER_assigns(MODEL_ASSIGNS, *TLS_GUARD, gh_sp_calls, gh_ir_calls)
-__CPROVER_ensures(cv_exc_pending == 0 && QI == __CPROVER_old(QI) && gh_sp_calls == 1 && gh_ir_calls == 0)
-__CPROVER_ensures(gh_n_resume == __CPROVER_old(gh_n_resume) + 1)                                              /* the child is started exactly once ... */
-__CPROVER_ensures(gh_RK == __CPROVER_old(gh_n_resume) ==> gh_res_trk == gh_sp_h)                              /* ... and it is the child */
-__CPROVER_ensures(__CPROVER_old(dq_head) < __CPROVER_old(dq_tail) ==> dq_head == __CPROVER_old(dq_head))     /* C05-FINDING-start-nested: nothing the starter queued runs before the starter suspends or finishes */
+__CPROVER_assigns(MODEL_ASSIGNS, *TLS_GUARD, gh_sp_calls, gh_ir_calls, gh_ir_h)
+__CPROVER_ensures(cv_exc_pending == 0 && QI == __CPROVER_old(QI) && gh_sp_calls == 1)
+/* from normal code: the child runs under a freshly installed queue (install_queue_and_resume, whose contract drains it) - started exactly once */
+__CPROVER_ensures(__CPROVER_old(QI) == 0 ==> (gh_ir_calls == 1 && gh_ir_h == gh_sp_h && gh_n_resume == __CPROVER_old(gh_n_resume) && dq_npush == __CPROVER_old(dq_npush)))
+/* from a running coroutine: nested activation */
+__CPROVER_ensures(__CPROVER_old(QI) != 0 ==> (gh_ir_calls == 0 && gh_n_resume == __CPROVER_old(gh_n_resume) + 1))                 /* the child is started exactly once ... */
+__CPROVER_ensures((__CPROVER_old(QI) != 0 && gh_RK == __CPROVER_old(gh_n_resume)) ==> gh_res_trk == gh_sp_h)                        /* ... and it is the child */
+__CPROVER_ensures((__CPROVER_old(QI) != 0 && __CPROVER_old(dq_head) < __CPROVER_old(dq_tail)) ==> dq_head == __CPROVER_old(dq_head))     /* C05-FINDING-start-nested: nothing the starter queued runs before the starter suspends or finishes */
 ;
 void h_start_lambda(void) { START_LAM *l; PROM *p; as_start_lambda(l, p); __CPROVER_assert(0, "SENTINEL reachable"); }
 #endif
